@@ -29,7 +29,9 @@ RULE = (
     "(both directions), masks_compatible and a real Output >> Input exchange (bare and via Composition.connect); "
     "SEQUENCES on one re-used Info object (prepare flat/shaped/time-axis interleaved with info.grid = other order / "
     "layout, info.mask = ..., copy_with, copy.copy, Info.accepts): every prepare must equal the result under a fresh "
-    "Info with the current fields and the model evaluated on the current fields; "
+    "Info with the current fields and the model evaluated on the current fields; OBJECT SHARING: the very same mask "
+    "ndarray on both sides (one array passed to two Infos, copy_with(grid=other layout), copy.copy + grid assignment) "
+    "on square and non-square grids whose layouts differ in axes_increase / axes_reversed; "
     "non-trivial = partial mask (neither empty nor full) for round-trip/prepare cases, two explicit masks on "
     "different layouts for acceptance cases; distinct by canonical case hash"
 )
@@ -386,7 +388,48 @@ def _gen_accept_sweep(dims_list):
     return cases
 
 
-SEQ_SHAPES = [[2, 2], [3, 2], [2, 3], [3, 2], [2, 3], [2, 2, 2], [3, 2, 2], [2, 3, 2], [3], [4, 3]]
+SHARE_DIMS = [[2, 2], [3, 3], [2, 2, 2], [2, 2], [3, 3], [2, 3], [3, 2], [3, 2, 2], [3]]
+SHARE_MODES = ["same_obj", "copy_with", "copy"]
+
+
+def _gen_shared(rng, ncases):
+    """both infos carry the very same mask ndarray object (one array passed to two Infos, or one info derived
+    from the other by copy_with(grid=...) / copy.copy + grid assignment) on compatible grids whose layouts
+    differ: the decision must still follow the documented table (the model has no object identity)"""
+    cases = []
+    for j in range(ncases):
+        dims = rng.choice(SHARE_DIMS)
+        n = _size(dims)
+        square = len(set(dims)) == 1
+        loc = rng.choice(["points", "cells"])
+        rev_a = rng.random() < 0.5
+        rev_b = (rng.random() < 0.5) if square else rev_a   # raw sharing needs equal data shapes
+        ga = {"kind": "uniform", "rev": rev_a, "inc": [rng.random() < 0.6 for _ in dims], "loc": loc}
+        gb = {"kind": "uniform", "rev": rev_b, "inc": [rng.random() < 0.6 for _ in dims], "loc": loc}
+        if j % 4 == 0:
+            gb = dict(ga, inc=list(ga["inc"]))           # identical layout: sharing must be accepted
+        if j % 9 == 0:
+            gb = None if j % 2 else {"kind": "nogrid", "shape": list(dims)}
+            if gb is not None:
+                ga = dict(gb)
+        r = rng.random()
+        if r < 0.8:
+            bits = [rng.random() < rng.choice([0.2, 0.5]) for _ in range(n)]
+            ma = _raw_in_layout(dims, bits, ga if ga["kind"] == "uniform" else None)
+            mb = {"shape": list(ma["shape"]), "bits": list(bits)}
+        else:
+            ma = mb = rng.choice(["nomask", "flex", "none"])
+        share = rng.choice(SHARE_MODES)
+        if j % 2 and gb is not None and not (ga["kind"] != gb["kind"]):
+            cases.append({"k": "exchange", "om": ma, "og": ga, "im": mb, "ig": gb, "dims": dims,
+                          "via": rng.choice(["bare", "bare", "comp"]), "share": share})
+        else:
+            cases.append({"k": "accept", "sm": ma, "sg": ga, "im": mb, "ig": gb, "down": rng.random() < 0.5,
+                          "dims": dims, "share": share})
+    return cases
+
+
+SEQ_SHAPES = [[2, 2], [3, 2], [2, 3], [3, 3], [2, 3], [2, 2, 2], [3, 2, 2], [2, 3, 2], [3], [4, 3], [2, 2]]
 
 
 def _seq_gridk(rng, shape):
@@ -428,8 +471,10 @@ def _gen_seq(rng, ncases):
                     cur_order = rng.choice("CF")
                     g = [cur_order, _seq_gridk(rng, shape)]
                 ops.append(["copy_with", g, rmask() if rng.random() < 0.5 else None])
-            elif r < 0.94:
+            elif r < 0.92:
                 ops.append(["copy"])
+            elif r < 0.96:
+                ops.append(["accepts_derived", _seq_gridk(rng, shape), rng.random() < 0.5])
             else:
                 ops.append(["accepts", rmask() if rng.random() < 0.7 else rng.choice(["unset", "flex", "none", "nomask"]),
                             rng.random() < 0.5])
@@ -472,6 +517,17 @@ CORPUS = [
      "ops": [["prepare", "flat", list(range(8)), True], ["copy"], ["set_grid", "F", "cells_rev"],
              ["accepts", _M([2, 2, 2], [1, 0, 0, 0, 0, 0, 1, 1]), False], ["prepare", "flat", list(range(8)), False],
              ["set_mask", _M([2, 2, 2], [0, 1, 1, 0, 0, 0, 0, 0])], ["prepare", "flat", list(range(8)), False]]},
+    # seeded mutant C18_c: identity shortcut in masks_compatible; one mask OBJECT on two layouts
+    {"k": "exchange", "om": _M([2, 2], [1, 0, 0, 0]), "og": _U(False, [True, True]), "im": _M([2, 2], [1, 0, 0, 0]),
+     "ig": _U(False, [True, False]), "dims": [2, 2], "via": "bare", "share": "copy_with"},
+    {"k": "accept", "sm": _M([2, 2], [0, 1, 0, 0]), "sg": _U(False, [True, True]), "im": _M([2, 2], [0, 1, 0, 0]),
+     "ig": _U(True, [True, True]), "down": False, "dims": [2, 2], "share": "same_obj"},
+    {"k": "exchange", "om": _M([2, 2, 2], [1, 1, 0, 0, 0, 0, 0, 0]), "og": _U(True, [True, True, True], "cells"),
+     "im": _M([2, 2, 2], [1, 1, 0, 0, 0, 0, 0, 0]), "ig": _U(False, [True, True, True], "cells"), "dims": [2, 2, 2],
+     "via": "comp", "share": "copy"},
+    {"k": "seq", "shape": [2, 2], "init": {"order": "C", "gridk": "cells", "mask": _M([2, 2], [0, 1, 0, 0])},
+     "ops": [["accepts_derived", "cells_rev", False], ["accepts_derived", "cells", True],
+             ["prepare", "flat", [1, 2, 3, 4], False]]},
     # nobody provides a mask (ecd57a4)
     {"k": "exchange", "om": "unset", "og": _U(False, [True, True]), "im": "unset", "ig": _U(False, [True, True]),
      "dims": [2, 3], "via": "bare"},
@@ -498,6 +554,7 @@ def generate(rng, tier):
         cases += _gen_accept(rng, 700)
         cases += _gen_accept_sweep([[2], [2, 2]])[::3]
         cases += _gen_seq(rng, 500)
+        cases += _gen_shared(rng, 500)
     else:
         cases += _gen_round_sweep(rng, QUICK_SHAPES + THOROUGH_SHAPES, full=True)
         cases += _gen_round_misc(rng, 3000)
@@ -506,6 +563,7 @@ def generate(rng, tier):
         cases += _gen_accept(rng, 12000)
         cases += _gen_accept_sweep([[2], [3], [2, 2], [3, 2]])
         cases += _gen_seq(rng, 10000)
+        cases += _gen_shared(rng, 8000)
     return cases
 
 
@@ -639,9 +697,31 @@ def _run_prepare(c):
             "units_ok": r.units == fm.UNITS.Unit("m")}
 
 
+def _info_pair(ma, ga, mb, gb, share, **kw):
+    """two Infos; with share the second one carries the very same mask object as the first"""
+    import copy as _copy
+
+    a = fm.Info(grid=ga, mask=_py_mask(ma), **kw)
+    same = share and ma == mb
+    if not same:
+        return a, fm.Info(grid=gb, mask=_py_mask(mb), **kw)
+    if share == "copy_with" and gb is not None:
+        b = a.copy_with(grid=gb)
+    elif share == "copy":
+        b = _copy.copy(a)
+        b.grid = gb
+    else:
+        b = fm.Info(grid=gb, mask=a.mask, **kw)
+    return a, b
+
+
 def _run_accept(c):
-    a = fm.Info(time=None, grid=_py_grid(c["sg"], c["dims"]), mask=_py_mask(c["sm"]))
-    b = fm.Info(time=None, grid=_py_grid(c["ig"], c["dims"]), mask=_py_mask(c["im"]))
+    try:
+        a, b = _info_pair(c["sm"], _py_grid(c["sg"], c["dims"]), c["im"], _py_grid(c["ig"], c["dims"]), c.get("share"),
+                          time=None)
+    except Exception as e:  # noqa
+        return {"err": err_class(e)}
+    shared = bool(isinstance(a.mask, np.ndarray) and a.mask is b.mask)
     fail = {}
     try:
         ok = a.accepts(b, fail, incoming_donwstream=c["down"])
@@ -649,13 +729,12 @@ def _run_accept(c):
     except Exception as e:  # noqa
         return {"err": err_class(e)}
     return {"mask_ok": "mask" not in fail, "compatible": bool(direct), "accepts": bool(ok),
-            "other_fail": sorted(k for k in fail if k != "mask")}
+            "other_fail": sorted(k for k in fail if k != "mask"), "shared_object": shared}
 
 
 def _run_exchange(c):
     og, ig = _py_grid(c["og"], c["dims"]), _py_grid(c["ig"], c["dims"])
-    oi = fm.Info(time=T(0), grid=og, units="m", mask=_py_mask(c["om"]))
-    ii = fm.Info(time=T(0), grid=ig, units="m", mask=_py_mask(c["im"]))
+    oi, ii = _info_pair(c["om"], og, c["im"], ig, c.get("share"), time=T(0), units="m")
     if c["via"] == "comp" and c["om"] != "unset" and og is not None:
         return _run_exchange_comp(c, oi, ii)
     out = fm.Output(name="Out")
@@ -745,6 +824,11 @@ def _run_seq(c):
             elif op[0] == "copy":
                 info = _copy.copy(info)
                 steps.append(["none"])
+            elif op[0] == "accepts_derived":
+                other = info.copy_with(grid=_seq_grid(shape, cur["order"], op[1]))
+                fail = {}
+                info.accepts(other, fail, incoming_donwstream=op[2])
+                steps.append(["acc", "mask" not in fail])
             else:
                 other = fm.Info(time=T(0), grid=info.grid, units="m", mask=_py_mask(op[1]))
                 fail = {}
@@ -822,6 +906,8 @@ def _seq_op(op, rank):
         return C("ICopyWith", g, NONE if op[2] is None else Some(_mspec(op[2])))
     if op[0] == "copy":
         return "ICopy"
+    if op[0] == "accepts_derived":
+        return C("IAcceptsDerived", _seq_gspec(op[1], rank), B(op[2]))
     return C("IAccepts", _mspec(op[1]), B(op[2]))
 
 
@@ -1020,6 +1106,13 @@ def _mon_seq(c, o):
                 cur["order"], cur["gridk"] = op[1]
             if op[2] is not None:
                 cur["mask"] = op[2]
+        elif op[0] == "accepts_derived":
+            g1 = {"kind": "uniform", "rev": cur["gridk"] == "cells_rev", "inc": [True] * len(c["shape"]), "loc": "cells"}
+            g2 = dict(g1, rev=op[1] == "cells_rev")
+            exp = _doc_accepts(cur["mask"], cur["mask"], g2, g1) if op[2] else _doc_accepts(cur["mask"], cur["mask"], g1, g2)
+            if st[1] != (cur["mask"] == "unset" or exp):
+                return (f"step {i}: info.accepts(info.copy_with(grid=other layout)) gave {st[1]}, the documented relation "
+                        f"for mask {cur['mask']} on layouts {cur['gridk']} / {op[1]} gives {exp}")
         elif op[0] == "accepts":
             g = {"kind": "uniform", "rev": cur["gridk"] == "cells_rev", "inc": [True] * len(c["shape"]), "loc": "cells"}
             if op[2]:
